@@ -655,3 +655,52 @@ def tree_delete_vs_child_change(rng):
     g.sched.append(["drain"])
     return dict(flavour=fl.key(), base=g.base, schedule=g.sched, hash_mult=rng.choice([1, 3, 7, 11, 2654435761]),
                 mode=dict(origin=None, check_spec=False, no_conflicted=False, cov_every_step=False))
+
+
+# ------------------------------------------------------------------ new file in a folder, then the folder renamed (C04)
+def create_then_rename_folder(rng):
+    """C04 family (two-sided, disjoint top-level folders, fresh names, both sides id-stable): one user creates a FILE
+    inside an existing synchronised folder of theirs and then renames that folder before the new file has been
+    synchronised, while the other user creates or edits files in their own folder; the engine's steps fall anywhere -
+    in particular the other side's change may be the older pending entry when the first sync step runs.  The merged
+    tree must be exact (spec), whatever the order."""
+    cands = [f for f in CLEAN_FLAVOURS if not f.oip[0] and not f.oip[1]]
+    fl = rng.choice(cands)
+    g = EC.Gen(rng, fl, [0, 1], 0, owner={})
+    a = rng.choice([0, 1])
+    b = 1 - a
+    A, B = "/" + g.fresh("D"), "/" + g.fresh("D")
+    sub = A + "/" + g.fresh("D")
+    for d, owner in ((A, a), (B, b)):
+        g.tree[d] = "D"
+        g.base.append(["mkdir", g.abs(0, d)])
+        g.owner[d] = owner
+    g.tree[sub] = "D"
+    g.base.append(["mkdir", g.abs(0, sub)])
+    for _ in range(rng.randint(0, 2)):
+        k = sub + "/" + g.fresh("F")
+        g.tree[k] = "F"
+        g.base.append(["create", g.abs(0, k), g.content()])
+    bfile = B + "/" + g.fresh("F")
+    g.tree[bfile] = "F"
+    g.base.append(["create", g.abs(0, bfile), g.content()])
+    s = g.sched
+    s.append(["drain"])
+    if rng.random() < 0.7:
+        s.append(["user", b, rng.choice([["create", g.abs(b, B + "/" + g.fresh("F")), g.content()],
+                                          ["write", g.abs(b, bfile), g.content()]])])
+        if rng.random() < 0.7:
+            s.append(["intake", b])
+    for _ in range(rng.randint(1, 2)):
+        s.append(["user", a, ["create", g.abs(a, sub + "/" + g.fresh("F")), g.content()]])
+    for _ in range(rng.randint(0, 3)):
+        s.append(rng.choice([["intake", a], ["intake", a], ["sync"], ["intake", b]]))
+    new = A + "/" + g.fresh("D")
+    s.append(["user", a, ["rename", g.abs(a, sub), g.abs(a, new)]])
+    if rng.random() < 0.4:
+        s.append(["user", b, ["create", g.abs(b, B + "/" + g.fresh("F")), g.content()]])
+    for _ in range(rng.randint(0, 4)):
+        s.append(rng.choice([["intake", 0], ["intake", 1], ["sync"]]))
+    s.append(["drain"])
+    return dict(flavour=fl.key(), base=g.base, schedule=s, hash_mult=rng.choice([1, 3, 7, 11, 2654435761]),
+                mode=dict(origin=None, check_spec=True, no_conflicted=True, cov_every_step=False))
